@@ -320,6 +320,8 @@ func (f replyForm) encode(fl flowInfo, probe []byte, from netip.Addr, ttl int, s
 			q[7] = byte(f.QTTL)
 		}
 		if f.QTOS >= 0 {
+			// the traffic class straddles the first two bytes: its upper nibble shares byte 0 with the version
+			q[0] = 0x60 | byte(f.QTOS>>4)&0x0f
 			q[1] = q[1]&0x0f | byte(f.QTOS&0xf)<<4
 		}
 		if f.NATAddr {
